@@ -695,7 +695,7 @@ fn cmd_check(id: &str, tier: &str, cases_override: Option<u32>, workers: usize, 
     crumbs_install(&pending);
     let cases = cases_override.unwrap_or(match tier {
         "thorough" => 1_500_000,
-        _ => 40_000,
+        _ => 120_000,
     });
     let stop = Arc::new(AtomicBool::new(false));
     let progress = Arc::new(AtomicU64::new(0));
